@@ -63,6 +63,71 @@ def rule_a(ctx):
              'list hash no longer positional')
 
 
+def _children_hashed_symbolically(f, it):
+  """In the hash aggregate, every child value taken from the symbolic
+  iteration (comprehension or loop) is wrapped in sym_hash(<that value>) and
+  appears bare only in filter conditions."""
+  sites = []   # (value name, roots to inspect, condition roots)
+  for n in ast.walk(f.node):
+    if isinstance(n, (ast.ListComp, ast.GeneratorExp, ast.SetComp)):
+      for g in n.generators:
+        if it in A.unparse(g.iter):
+          sites.append((A.assigned_names(g.target)[-1], [n.elt], list(g.ifs)))
+    elif isinstance(n, ast.DictComp):
+      for g in n.generators:
+        if it in A.unparse(g.iter):
+          sites.append((A.assigned_names(g.target)[-1], [n.key, n.value], list(g.ifs)))
+    elif isinstance(n, ast.For) and it in A.unparse(n.iter):
+      conds = [x.test for b in n.body for x in ast.walk(b) if isinstance(x, (ast.If, ast.IfExp))]
+      sites.append((A.assigned_names(n.target)[-1], list(n.body), conds))
+  if not sites:
+    return False, f'the hash does not iterate self.{it}()'
+  for val, roots, conds in sites:
+    cond_nodes = {id(x) for c in conds for x in ast.walk(c)}
+    wrapped = bare = 0
+    def visit(node):
+      nonlocal wrapped, bare
+      if id(node) in cond_nodes:
+        return
+      if isinstance(node, ast.Call):
+        d = A.call_name(node) or ''
+        if d.split('.')[-1] == 'sym_hash' and len(node.args) == 1 and isinstance(node.args[0], ast.Name) \
+            and node.args[0].id == val:
+          wrapped += 1
+          return
+      if isinstance(node, ast.Name) and node.id == val and isinstance(node.ctx, ast.Load):
+        bare += 1
+      for ch in ast.iter_child_nodes(node):
+        visit(ch)
+    for r in roots:
+      visit(r)
+    if not wrapped:
+      return False, f'child `{val}` is hashed with the builtin hash, not sym_hash({val})'
+    if bare:
+      return False, f'child `{val}` also enters the hash outside sym_hash()'
+  return True, ''
+
+
+def rule_a2(ctx):
+  idx = ctx.index
+  for cls_fq, it in ((S.DICT, 'sym_items'), (S.LIST, 'sym_values')):
+    f = idx.lookup_method(cls_fq, 'sym_hash')
+    ok, why = _children_hashed_symbolically(f, it)
+    # Dict filters MISSING values: the comparison `v != MISSING` is in the `ifs`, not the element
+    ctx.ob('C06.a', f.fq + '#children', ok,
+           'children enter a container hash through sym_hash (values that are symbolically equal but '
+           'identity-hashed - objects without symbolic comparison, symbolized classes, equal lambdas - '
+           'hash equally)', f.loc, why)
+  f = idx.func(B + 'sym_hash')
+  g = C.cfg_of(f.node)
+  tests = [n for n in g.nodes if n.kind == 'test']
+  ok = bool(tests) and 'isinstance(x, Symbolic)' in A.unparse(tests[0].ast) and any(
+      n.kind == 'return' and A.unparse(n.ast.value) == 'x.sym_hash()' for m, lab in tests[0].succ if lab == 'true'
+      for n in [m])
+  ctx.ob('C06.a', f.fq, ok, 'pg.hash dispatches a symbolic value to its sym_hash() first', f.loc,
+         'symbolic values are no longer hashed through sym_hash()')
+
+
 def rule_b(ctx):
   idx = ctx.index
   f = idx.func(B + 'lt')
@@ -305,6 +370,7 @@ def rule_g(ctx):
 def run(ctx):
   ctx.consult(*FILES)
   rule_a(ctx)
+  rule_a2(ctx)
   rule_b(ctx)
   rule_c(ctx)
   rule_d(ctx)
